@@ -282,6 +282,77 @@ class RefMapToAny(Ref):
         return (("emit", "boxed(item)"),), st, False
 
 
+class RefSeqEqual(Ref):
+    """handlers of sequence_equal behind its zip: a row whose members differ ends it with `false`"""
+    init = ()
+    inputs = ("all",)
+
+    def next(self, st, inp):
+        if inp["all"]:
+            return (), st, False
+        return (("emit", "const:false"), ("complete",)), st, True
+
+    def complete(self, st):
+        return (("emit", "const:true"), ("complete",))
+
+
+class RefCombine(Ref):
+    init = ()
+    extra = ("user_fn",)
+
+    def next(self, st, inp):
+        return (("user_fn", "item"), ("emit", "mapped")), st, False
+
+
+class RefTimestamp(Ref):
+    init = ()
+
+    def next(self, st, inp):
+        return (("emit", "tuple:other,item"),), st, False
+
+
+class RefTimeInterval(Ref):
+    init = False                 # has a previous instant?
+
+    def next(self, st, inp):
+        return ((("emit", "other"),) if st else ()), True, False
+
+    def complete(self, st):
+        return (("emit", "other"), ("complete",)) if st else (("complete",),)
+
+
+class RefGroupBy(Ref):
+    init = ()
+    inputs = ("known",)
+    extra = ("user_fn", "map_insert", "window_next")
+
+    def next(self, st, inp):
+        if inp["known"]:
+            return (("user_fn", "item"), ("window_next", "item")), st, False
+        return (("user_fn", "item"), ("map_insert",), ("emit", "window"), ("window_next", "item")), st, False
+
+    extra_end = ("window_complete", "window_error")
+    fanout = ("window_complete", "window_error")
+
+    def complete(self, st):
+        return (("window_complete",), ("complete",))
+
+    def error(self, st):
+        return (("window_error",), ("error",))
+
+
+class RefRetryWhen(Ref):
+    init = ()
+    inputs = ("pred",)
+    extra = ("resubscribe",)
+
+    def next(self, st, inp):
+        return (("emit", "item"),), st, False
+
+    def error_with(self, st, inp):
+        return (("resubscribe", "do_subscribe"),) if inp["pred"] else (("error",),)
+
+
 class ANY_OF(tuple):
     """several acceptable traces"""
     def __new__(cls, *alts):
@@ -311,6 +382,11 @@ OPERATORS = {
     "operators::materialize::Materialize": ("materialize", RefMaterialize),
     "operators::dematerialize::Dematerialize": ("dematerialize", RefDematerialize),
     "operators::map_to_any::MapToAny": ("map_to_any", RefMapToAny),
+    "operators::sequence_equal::SequenceEqual": ("sequence_equal", RefSeqEqual),
+    "operators::combine_latest::CombineLatest": ("combine_latest", RefCombine),
+    "operators::timestamp::Timestamp": ("timestamp", RefTimestamp),
+    "operators::time_interval::TimeInterval": ("time_interval", RefTimeInterval),
+    "operators::group_by::GroupBy": ("group_by", RefGroupBy),
 }
 
 
@@ -342,13 +418,14 @@ class Impl:
         return st
 
     def input_syms(self, role):
-        return sorted(s for s in self.S[role].symbols() if s.startswith("in:"))
+        return sorted(s for s in self.S[role].symbols() if s.startswith("in:") and s != "in:live")
 
     def run(self, role, state, inputs, extra=()):
         """-> set of (normalised trace, raw trace, next state as sorted tuple)"""
         S = self.S[role]
         sigma = dict(state)
         sigma.update(inputs)
+        sigma.setdefault("in:live", True)
         for s in S.symbols():
             if s not in sigma:
                 raise Undecided("%s-handler consults `%s`, which the abstraction does not model" % (role, s))
@@ -393,6 +470,8 @@ def _map_inputs(ref, syms, combo):
         elif s.startswith("in:eq"):
             inp["eq"] = v
         elif s in ("in:lt", "in:gt"):
+            inp[s[3:]] = v
+        elif s in ("in:all", "in:any", "in:known"):
             inp[s[3:]] = v
         elif s == "in:variant":
             inp["variant"] = ref.variant_names[v] if getattr(ref, "variant_names", None) else v
@@ -439,7 +518,7 @@ def _explore(r, impl, ref, root, name, hb):
     steps = 0
     nsyms = impl.input_syms("N")
     want = set(ref.inputs)
-    have = {"pred" if s == "in:pred" else (s[3:] if s in ("in:lt", "in:gt", "in:variant") else "eq") for s in nsyms}
+    have = {"pred" if s == "in:pred" else (s[3:] if s in ("in:lt", "in:gt", "in:variant", "in:all", "in:any", "in:known") else "eq") for s in nsyms}
     ref.variant_names = impl.S["N"]._item_variants()
     if want & {"lt", "gt"} and have & {"lt", "gt"}:
         have |= {"lt", "gt"}         # one ordered comparison is enough to decide a minimum / maximum
@@ -451,14 +530,26 @@ def _explore(r, impl, ref, root, name, hb):
         for ((ist, rst), hist) in frontier:
             state = dict(ist)
             # endings after this prefix
+            fan = tuple(getattr(ref, "fanout", ()))       # effects done once per open group: any number of times, in a loop or not
             for role, rtrace in (("C", ref.complete(rst)), ("E", ref.error(rst))):
-                for (ntr, raw, ns, p) in impl.run(role, state, {}, ref.extra):
+                saw_fan = False
+                for (ntr, raw, ns, p) in impl.run(role, state, {}, tuple(ref.extra) + tuple(getattr(ref, "extra_end", ())) + ("loop",)):
                     steps += 1
+                    if fan:
+                        saw_fan = saw_fan or any(x[0] in fan for x in ntr)
+                        if any(x[0] == "loop" for x in ntr):
+                            continue      # the fan-out loop cut after two rounds: truncated path
+                        ntr = tuple(x for x in ntr if x[0] not in fan)
+                        rtrace = tuple(x for x in rtrace if x[0] not in fan)
                     if ntr != tuple(rtrace):
                         report("%s after %s" % ({"C": "completion", "E": "error"}[role], _shape(hist)),
                                "%s: when the source %s after %s, the operator does %s; its definition says %s"
                                % (name, {"C": "completes", "E": "fails"}[role], _hist(hist), _fmt(ntr), _fmt(rtrace)),
                                impl.S[role].b)
+                if fan and not saw_fan:
+                    report("%s after %s: groups not told" % ({"C": "completion", "E": "error"}[role], _shape(hist)),
+                           "%s: when the source %s, the open groups are not %s" % (name, {"C": "completes", "E": "fails"}[role],
+                                                                                     {"C": "completed", "E": "failed"}[role]), impl.S[role].b)
             if depth == DEPTH:
                 continue
             domains = [tuple(range(len(impl.S["N"]._item_variants() or ()))) if s_ == "in:variant" else (False, True) for s_ in nsyms]
@@ -519,23 +610,27 @@ def _shape(h):
 import re as _re
 
 CREATORS = {
-    # public fn -> (regular expression every path's effect string must match, effects at least one path must show)
-    "observables::just::just": (r"^emit\(captured\) complete$", ["emit(captured)", "complete"]),
-    "observables::empty::empty": (r"^complete$", ["complete"]),
-    "observables::never::never": (r"^$", []),
-    "observables::error::error": (r"^error$", ["error"]),
-    "observables::start::start": (r"^user_fn\(\(\)\) emit\(mapped\) complete$", ["emit(mapped)", "complete"]),
-    "observables::defer::defer": (r"^user_fn\(\(\)\) subscribe\(mapped\)$", ["subscribe(mapped)"]),
-    # loops are cut after two rounds (`loop`); a path may stop early only because the subscriber left
-    "observables::from_iter::from_iter": (r"^(emit\(\w+\) ){0,3}(complete|loop)?$", ["emit", "complete"]),
-    "observables::range::range": (r"^(emit\(\w+\) ){0,3}(complete|loop)?$", ["emit", "complete"]),
-    "observables::repeat::repeat": (r"^(emit\(captured\) ){0,3}(loop)?$", ["emit(captured)"]),
+    # public fn -> (regex for a path taken while the subscriber stays subscribed, regex for a path on which it has left,
+    #               effects at least one live path must show).  Loops are cut after two rounds (`loop`).
+    "observables::just::just": (r"^emit\(captured\) complete$", None, ["emit(captured)", "complete"]),
+    "observables::empty::empty": (r"^complete$", None, ["complete"]),
+    "observables::never::never": (r"^$", None, []),
+    "observables::error::error": (r"^error$", None, ["error"]),
+    "observables::start::start": (r"^user_fn\(\(\)\) emit\(mapped\) complete$", None, ["emit(mapped)", "complete"]),
+    "observables::defer::defer": (r"^user_fn\(\(\)\) subscribe\(mapped\)$", None, ["subscribe(mapped)"]),
+    "observables::from_iter::from_iter": (r"^(emit\(\w+\) )*(complete|loop)$", r"^(complete)?$", ["emit", "complete"]),
+    "observables::range::range": (r"^(emit\(\w+\) )*(complete|loop)$", r"^(complete)?$", ["emit", "complete"]),
+    "observables::repeat::repeat": (r"^(emit\(captured\) )+loop$", r"^$", ["emit(captured)"]),
+    # time-based sources emit from the task they post to their scheduler
+    "observables::interval::interval": (r"^(emit\([\w:]+\) )*(emit\([\w:]+\)|loop)?$", r"^$", ["emit"]),
+    "observables::timer::timer": (r"^emit\([\w:]+\) complete$", None, ["emit", "complete"]),
 }
+POSTED = ("observables::interval::interval", "observables::timer::timer")
 
 
 def creators_rule(P, E, H):
     r = RuleResult("SRC", "creation functions: every path of the per-subscribe body performs exactly the emissions / terminal the "
-                          "function's definition lists, in that order")
+                          "function's definition lists, in that order, and stops emitting once the subscriber has left")
     found = set()
     for c in E.sites["create"]:
         cl = c.arg_closure(0)
@@ -546,14 +641,33 @@ def creators_rule(P, E, H):
         if root not in CREATORS or root in found:
             continue
         found.add(root)
-        rx, need = CREATORS[root]
+        rx_live, rx_dead, need = CREATORS[root]
         try:
-            S = Summary(P, E, sb, item_param=99, item_kind="none", sink_param=2)
+            if root in POSTED:
+                task = None
+                for k in sb.calls:
+                    if atom(k) == "post":
+                        tcl = k.arg_closure(1)
+                        task = P.bodies.get(tcl) if tcl else None
+                if task is None:
+                    raise Undecided("no task posted to the scheduler")
+                up = None
+                for u in task.upvars:
+                    parent, provs = P.upvar_origin(task, u["idx"])
+                    if parent is not None and parent.id == sb.id and all(t[0] == "param" and t[1] == 2 for t in provs):
+                        up = u["idx"]
+                if up is None:
+                    raise Undecided("the posted task does not capture the subscriber")
+                S = Summary(P, E, task, item_param=99, item_kind="none", sink_upvar=up)
+                body = task
+            else:
+                S = Summary(P, E, sb, item_param=99, item_kind="none", sink_param=2)
+                body = sb
         except Undecided as e:
             r.error("SRC: %s not decidable: %s" % (root, e))
             continue
         seen_fx = set()
-        ok_paths = 0
+        from rules_count import ev_bool
         for p in S.paths:
             tr = []
             for x in p.trace:
@@ -568,17 +682,26 @@ def creators_rule(P, E, H):
                 elif x[0] in ("loop", "panic", "opaque"):
                     tr.append(x[0])
             line = " ".join(tr)
-            for t_ in tr:
-                seen_fx.add(t_)
-                seen_fx.add(t_.split("(")[0])
-            if not _re.match(rx, line + (" " if rx.startswith("^(emit") and line.endswith(")") else "")) and not _re.match(rx, line):
-                r.violate((root, "creation", _re.sub(r"\d+", "N", line) or "nothing"),
-                          "%s: a path of its per-subscribe body does [%s], which its definition does not allow" % (root.split("::")[-1], line), body=sb)
-            else:
-                ok_paths += 1
+            for live in (True, False):
+                sig = {"in:live": live}
+                try:
+                    if not all(ev_bool(e, sig) for e in p.pc):
+                        continue
+                except (KeyError, Undecided):
+                    r.error("SRC: %s: a branch depends on something the abstraction does not model" % root)
+                    continue
+                rx = rx_live if (live or rx_dead is None) else rx_dead
+                if live:
+                    for t_ in tr:
+                        seen_fx.add(t_)
+                        seen_fx.add(t_.split("(")[0])
+                if not _re.match(rx, line):
+                    r.violate((root, "creation", ("subscribed: " if live else "left: ") + (_re.sub(r"\d+", "N", line) or "nothing")),
+                              "%s: while the subscriber %s, a path of its per-subscribe code does [%s], which its definition does not allow"
+                              % (root.split("::")[-1], "stays subscribed" if live else "has left", line), body=body)
         for n_ in need:
             if n_ not in seen_fx:
-                r.violate((root, "creation", "never " + n_), "%s: no path of its per-subscribe body performs `%s`" % (root.split("::")[-1], n_), body=sb)
+                r.violate((root, "creation", "never " + n_), "%s: no path of its per-subscribe code performs `%s` for a live subscriber" % (root.split("::")[-1], n_), body=body)
         r.instance((root, "creation"), True, "%d paths, effects %s" % (len(S.paths), sorted(seen_fx)))
     for root in CREATORS:
         if root not in found:
@@ -687,8 +810,20 @@ def compose_rule(P, E, H):
     else:
         S = Summary(P, E, sw, item_param=99, item_kind="none", sink_param=2)
         saw_emit = saw_sub = False
+        from rules_count import ev_bool
         for p_ in S.paths:
             tr = [x[0] for x in p_.trace if x[0] in ("sink_next", "subscribe", "sink_complete", "sink_error", "loop")]
+            feas = {}
+            for live in (True, False):
+                try:
+                    feas[live] = all(ev_bool(e, {"in:live": live}) for e in p_.pc)
+                except (KeyError, Undecided):
+                    feas[live] = True
+            if feas[False] and not feas[True] and ("sink_next" in tr or "subscribe" in tr):
+                r.violate(("operators::start_with::StartWith", "acts only after the subscriber left"),
+                          "start_with emits its prefix / subscribes the source only on the edge where the subscriber has already left", body=sw)
+            if not feas[True]:
+                continue
             if "subscribe" in tr:
                 saw_sub = True
                 if "sink_next" in tr[tr.index("subscribe"):] or tr.count("subscribe") > 1:
@@ -746,10 +881,24 @@ class GSample(GateRef):
                 "T.E": ((("error",),), st, True), "T.C": ((), st, False)}[ev]
 
 
+class GSwitchOnNext(GateRef):
+    """this crate's switch_on_next(target): mirror the source until the target emits its first item, the target from then on"""
+    init = False
+
+    def step(self, st, ev):
+        if ev == "S.N":
+            return (() if st else (("emit", "item"),)), st, False
+        if ev == "T.N":
+            return (("emit", "item"),), True, False
+        return {"S.E": ((("error",),), st, True), "T.E": ((("error",),), st, True),
+                "S.C": ((("complete",),), st, False), "T.C": ((("complete",),), st, True)}[ev]
+
+
 GATES = {
     "operators::take_until::TakeUntil": ("take_until", GTakeUntil),
     "operators::skip_until::SkipUntil": ("skip_until", GSkipUntil),
     "operators::sample::Sample": ("sample", GSample),
+    "operators::switch_on_next::SwitchOnNext": ("switch_on_next", GSwitchOnNext),
 }
 GATE_DEPTH = 4
 
@@ -762,6 +911,10 @@ def gates_rule(P, E, H):
         trig = [t for t in ts if H.is_trigger_triple(t)]
         src = [t for t in ts if not H.is_trigger_triple(t)]
         if len(trig) != 1 or len(src) != 1:
+            # both observers use their payload (switch_on_next): the source is the Observable parameter, the other a field of self
+            src = [t for t in ts if "arg" in (t.get("target") or "")]
+            trig = [t for t in ts if t not in src]
+        if len(trig) != 1 or len(src) != 1:
             r.error("GATE: %s: expected one source and one trigger observer, found %d/%d" % (name, len(src), len(trig)))
             continue
         try:
@@ -771,7 +924,7 @@ def gates_rule(P, E, H):
                     hb = t["handlers"].get(role)
                     if hb is None:
                         raise Undecided("%s.%s handler missing" % (tag, role))
-                    S["%s.%s" % (tag, role)] = Summary(P, E, hb, item_param=3, item_kind=("item" if tag == "S" else "tick") if role == "N" else kind)
+                    S["%s.%s" % (tag, role)] = Summary(P, E, hb, item_param=3, item_kind="item" if role == "N" else kind)
             n = _explore_gate(r, S, refcls(), root, name)
             r.instance((root, "gating"), True, "%s: %d event steps explored to depth %d; paths per handler %s"
                        % (name, n, GATE_DEPTH, {k: len(v.paths) for k, v in sorted(S.items())}))
@@ -799,6 +952,7 @@ def _explore_gate(r, S, ref, root, name):
             for ev in ("S.N", "S.E", "S.C", "T.N", "T.E", "T.C"):
                 Sm = S[ev]
                 sigma = dict(state)
+                sigma.setdefault("in:live", True)
                 for s_ in Sm.symbols():
                     if s_ not in sigma:
                         raise Undecided("%s handler consults `%s`, which the abstraction does not model" % (ev, s_))
@@ -903,6 +1057,7 @@ def amb_rule(P, E, H):
                             Sm = S[role]
                             sigma = dict(state)
                             sigma["in:serial"] = key
+                            sigma.setdefault("in:live", True)
                             for s_ in Sm.symbols():
                                 if s_.startswith("ov:") and s_ not in sigma:
                                     sigma[s_] = -12345      # payload of an empty Option: never read on a feasible path
@@ -1079,7 +1234,7 @@ def subjects_rule(P, E, H):
             n = 0
             for has_item in (False, True):
                 for has_err in (False, True):
-                    sigma = {item_sym[0]: has_item, err_sym[0]: has_err}
+                    sigma = {item_sym[0]: has_item, err_sym[0]: has_err, "in:live": True}
                     for s_ in S.symbols():
                         sigma.setdefault(s_, 0)
                     outs = S.step(sigma, ALPHABET | {"sink_next", "sink_error", "sink_complete", "subscribe"})
@@ -1140,7 +1295,7 @@ def subjects_rule(P, E, H):
             replays = False
             for has_err in (False, True):
                 for done in (False, True):
-                    sigma = {optc[0]: has_err, flg[0]: done}
+                    sigma = {optc[0]: has_err, flg[0]: done, "in:live": True}
                     for s_ in S.symbols():
                         sigma.setdefault(s_, 1)
                     outs = S.step(sigma, ALPHABET | {"sink_next", "sink_error", "sink_complete"})
@@ -1181,6 +1336,7 @@ PASS_THROUGH = {
     "operators::last::Last": None,
     "operators::flat_map::FlatMap": "call",          # the observer of an inner observable
     "operators::timeout::Timeout": "arg",
+    "operators::delay::Delay": None,
 }
 
 
@@ -1219,3 +1375,258 @@ def forward_rule(P, E, H):
         if not any(t["root"] == root for t in H.triples):
             r.error("H-next-forward: anchor missing: observers of %s" % root)
     return r
+
+
+# ---------------------------------------------------------------------------- retry / retry_when (C04)
+def retry_rule(P, E, H):
+    """When does an error resubscribe and when is it forwarded: retry(count) - this crate's convention, pinned by its
+    own code and documentation examples, is count = total number of subscriptions, 0 = for ever - and retry_when(p)."""
+    r = RuleResult("RETRY", "retry / retry_when: an upstream error resubscribes exactly when the operator's definition says so, "
+                            "otherwise it is forwarded")
+    from rules_count import ev_bool
+
+    def classify(tr):
+        resub = any(x[0] in ("resubscribe", "subscribe") for x in tr)
+        err = any(x[0] == "sink_error" for x in tr)
+        return resub, err
+    for root, name in (("operators::retry::Retry", "retry"), ("operators::retry_when::RetryWhen", "retry_when")):
+        ts = [t for t in H.triples if t["root"] == root]
+        if not ts:
+            r.error("RETRY: anchor missing: observers of %s" % root)
+            continue
+        hb = ts[0]["handlers"].get("E")
+        try:
+            S = Summary(P, E, hb, item_param=3, item_kind="error")
+            syms = sorted(S.symbols() - {"in:live"})
+            if name == "retry_when":
+                if syms != ["in:pred"]:
+                    raise Undecided("error handler consults %s, expected the predicate only" % syms)
+                for pred in (False, True):
+                    for (tr, nx), (p_, c_) in S.step({"in:pred": pred}, ALPHABET).items():
+                        resub, err = classify(tr)
+                        if (resub, err) != ((True, False) if pred else (False, True)):
+                            r.violate((root, "retry polarity", "pred=%s" % str(pred).lower()),
+                                      "retry_when: when the predicate answers %s the error handler %s; it must %s"
+                                      % (str(pred).lower(), "resubscribes" if resub else ("forwards the error" if err else "does nothing"),
+                                         "resubscribe" if pred else "forward the error"), body=hb)
+                r.instance((root, "retry polarity"), True, "2 predicate outcomes")
+            else:
+                if len(syms) != 2:
+                    raise Undecided("error handler consults %s, expected the attempt number and the limit" % syms)
+                ok_map = None
+                for (sn, sm) in ((syms[0], syms[1]), (syms[1], syms[0])):
+                    good = True
+                    for n_ in range(1, 6):
+                        for m_ in range(0, 6):
+                            want = (m_ == 0 or n_ < m_)
+                            for (tr, nx), (p_, c_) in S.step({sn: n_, sm: m_}, ALPHABET).items():
+                                resub, err = classify(tr)
+                                if (resub, err) != ((True, False) if want else (False, True)):
+                                    good = False
+                    if good:
+                        ok_map = (sn, sm)
+                r.instance((root, "retry polarity"), True, "attempts 1..5 x limits 0..5 under both role assignments")
+                if ok_map is None:
+                    r.violate((root, "retry polarity", "attempt/limit"),
+                              "retry(count): no reading of the two captured integers as (attempt, limit) makes the error handler resubscribe exactly "
+                              "while attempt < limit (or limit == 0) and forward the error otherwise", body=hb)
+        except Undecided as e:
+            r.error("RETRY: %s not decidable in the abstraction: %s" % (name, e))
+    return r
+
+
+# ---------------------------------------------------------------------------- concat (C03)
+def concat_rule(P, E, H):
+    """concat plays its inputs strictly one after another: when the current one completes, the next is taken from the FRONT of
+    the queue and subscribed; the whole completes only when the queue is empty."""
+    r = RuleResult("CONCAT", "concat: on completion of the current input, the next queued input (front of the queue) is subscribed; "
+                             "downstream completes exactly when none is left")
+    root = "operators::concat::Concat"
+    cands = []
+    for b in P.bodies.values():
+        if b.id in P.absorbed and False:
+            continue
+        if H.type_root(b) != root:
+            continue
+        if any(c.path in ("std::collections::VecDeque::pop_front", "std::collections::VecDeque::pop_back", "std::vec::Vec::pop", "std::vec::Vec::remove")
+               for c in b.calls) and any(atom(c) == "subscribe" for c in b.calls):
+            cands.append(b)
+    # the same code may be seen standalone and inlined into a completion handler: judge each view
+    if not cands:
+        r.error("CONCAT: anchor missing: the code that takes the next input off the queue and subscribes it")
+        return r
+    for b in cands:
+        try:
+            S = Summary(P, E, b, item_param=99, item_kind="none")
+            lens = sorted(s_ for s_ in S.symbols() if s_.startswith("len:"))
+            if len(lens) != 1:
+                raise Undecided("expected one queue, found %d" % len(lens))
+            n = 0
+            for ln in (0, 1, 2, 3):
+                sigma = {lens[0]: ln}
+                for s_ in S.symbols():
+                    sigma.setdefault(s_, 0)
+                outs = S.step(sigma, ALPHABET | {"pop_front", "pop_back"})
+                if not outs:
+                    raise Undecided("no feasible path for a queue of %d" % ln)
+                for (tr, nx), (p_, c_) in outs.items():
+                    n += 1
+                    names = [x[0] for x in tr]
+                    done = any(x in names for x in ("sink_complete", "sink_complete_force"))
+                    sub = [x for x in tr if x[0] == "subscribe"]
+                    if ln == 0 and (not done or sub or "panic" in names):
+                        r.violate((root, "next input", "queue empty"),
+                                  "concat: when the current input completes and no input is queued the code does %s; it must complete downstream" % names, body=b)
+                    if ln > 0 and (done or len(sub) != 1 or "pop_front" not in names or "panic" in names):
+                        r.violate((root, "next input", "queue not empty"),
+                                  "concat: when the current input completes and %d input(s) are queued the code does %s; it must take the FIRST "
+                                  "queued input and subscribe it (and not complete)" % (ln, names), body=b)
+            r.instance((H.stable_name(b), "next input"), True, "%d guarded paths over queue lengths 0..3" % n)
+        except Undecided as e:
+            r.error("CONCAT: not decidable in the abstraction: %s" % e)
+    return r
+
+
+# ---------------------------------------------------------------------------- zip (C03)
+def zip_rule(P, E, H):
+    """zip emits the i-th row from the i-th item of every input.  Structural conditions on the (un-inlined) bodies of Zip:
+    Z1 an item is appended at the back of one queue of the queue vector; Z2 a row is taken only on the edge where every
+    queue is non-empty (count-of-non-empty == number of queues, or no queue is_empty); Z3 the row is made of the FRONT of
+    each queue; Z4 every row taken is handed downstream while the subscription is live."""
+    r = RuleResult("ZIP", "zip: items queue per input (back), a row is taken only when every queue has one (front of each), and every row is emitted")
+    root = "operators::zip::Zip"
+    bodies = [P.orig.get(b.id, b) for b in P.bodies.values()
+              if H.type_root(b) == root or (b.nid.startswith("operators::zip::") and not b.nid.startswith("operators::zip::test")
+                                            and not b.impl_trait and "impl observable" not in b.nid)]
+    if not bodies:
+        r.error("ZIP: anchor missing: bodies of Zip")
+        return r
+    pops = [(b, c) for b in bodies for c in b.calls if c.path in ("std::collections::VecDeque::pop_front", "std::collections::VecDeque::pop_back",
+                                                                   "std::vec::Vec::pop", "std::vec::Vec::remove")]
+    pushes = [(b, c) for b in bodies for c in b.calls if c.path in ("std::collections::VecDeque::push_back", "std::collections::VecDeque::push_front",
+                                                                     "std::vec::Vec::push") and len(c.args) > 1]
+    r.instance((root, "queue operations"), True, "%d push, %d pop site(s)" % (len(pushes), len(pops)))
+    # Z1
+    item_pushes = [(b, c) for (b, c) in pushes if any(t[0] == "param" for t in b.operand_prov(c.args[1])) and
+                   any("[]" in t[2] for t in b.operand_prov(c.args[0]))]
+    if not item_pushes:
+        r.violate((root, "Z1", "item not queued"), "no code of zip appends an incoming item to one of the per-input queues", body=bodies[0])
+    for (b, c) in item_pushes:
+        if not c.path.endswith("push_back") and not c.path.endswith("Vec::push"):
+            r.violate((root, "Z1", "item queued at the front"), "zip queues an item at the front of its input's queue: rows pair items out of order", body=b, line=c.line)
+    # Z3
+    for (b, c) in pops:
+        if not c.path.endswith("pop_front") and not (c.path.endswith("Vec::remove") and len(c.args) > 1 and c.args[1].get("int") == 0):
+            r.violate((root, "Z3", "row made of the newest items"), "zip takes %s: the row is not made of the oldest queued item of each input" % c.path.split("::")[-1], body=b, line=c.line)
+    if not pops:
+        r.violate((root, "Z3", "nothing taken off the queues"), "zip never takes items off its queues", body=bodies[0])
+    # Z2: the body that owns the emptiness test
+    tested = False
+    for b in bodies:
+        kids = [P.orig.get(k.id, k) for k in P.children(P.bodies.get(b.id, b))]
+        own_pops = [c for c in b.calls if (b, c) in pops] or [c for k in kids for c in k.calls if (k, c) in pops and False]
+        pop_sites = [c.bb for c in b.calls if any(c is pc for (pb, pc) in pops if pb is b)]
+        # pops inside closures handed to iterator adapters called from b count at the adapter call
+        for c in b.calls:
+            for t in E.inline_targets(c):
+                to = P.orig.get(t.id, t)
+                if any(pb is to for (pb, pc) in pops):
+                    pop_sites.append(c.bb)
+        if not pop_sites:
+            continue
+        for tb in sorted(b.reach):
+            t = b.blocks[tb]["term"]
+            if t["k"] != "switch" or t["discr"]["k"] not in ("copy", "move"):
+                continue
+            pol = _all_nonempty_polarity(P, E, b, t["discr"])
+            if pol is None:
+                continue
+            tested = True
+            zero_t = [x for v_, x in t["targets"] if v_ == 0]
+            false_bb = zero_t[0] if zero_t else t["otherwise"]
+            true_bb = t["otherwise"]
+            good, bad = (true_bb, false_bb) if pol else (false_bb, true_bb)
+            r.instance((root, "Z2"), True, "row test at bb%d of %s" % (tb, b.nid))
+            if any(ps in b.reachable_from(bad) or ps == bad for ps in pop_sites) and not any(ps in b.reachable_from(good) for ps in pop_sites if ps not in b.reachable_from(bad)):
+                r.violate((root, "Z2", "row taken although a queue is empty"),
+                          "zip takes a row on the edge where some input has nothing queued (and not on the edge where all have)", body=b, line=t.get("line"))
+            elif any(ps in b.reachable_from(bad) or ps == bad for ps in pop_sites) and bad not in b.reachable_from(good) and not _rejoins(b, good, bad, pop_sites):
+                r.violate((root, "Z2", "row taken although a queue is empty"),
+                          "zip takes a row also on the edge where some input has nothing queued", body=b, line=t.get("line"))
+    if pops and not tested:
+        r.violate((root, "Z2", "rows taken without testing the queues"), "zip takes a row without testing that every input has an item queued", body=bodies[0])
+    # Z4: where the row comes back (a Fn call / local call returning it), the Some edge reaches sink_next
+    emits = [(b, c) for b in [P.bodies.get(x.id, x) for x in bodies] for c in b.calls if atom(c) == "sink_next"]
+    r.instance((root, "Z4"), True, "%d sink_next site(s)" % len(emits))
+    if not emits:
+        r.violate((root, "Z4", "rows never emitted"), "zip never hands a row downstream", body=bodies[0])
+    else:
+        # .. and it does so while the subscription is live (the loop's is_subscribed() poll only ends it once the subscriber left)
+        from rules_count import ev_bool
+        for t in H.triples:
+            if t["root"] != root or t["handlers"].get("N") is None:
+                continue
+            try:
+                S = Summary(P, E, t["handlers"]["N"])
+            except Undecided:
+                continue
+            live_emit = dead_emit = False
+            for p_ in S.paths:
+                if not any(x[0] == "sink_next" for x in p_.trace):
+                    continue
+                for live in (True, False):
+                    try:
+                        if all(ev_bool(e, {"in:live": live}) for e in p_.pc):
+                            live_emit = live_emit or live
+                            dead_emit = dead_emit or (not live)
+                    except (KeyError, Undecided):
+                        live_emit = True
+            if not live_emit:
+                r.violate((root, "Z4", "rows emitted only after the subscriber left"),
+                          "zip's emit loop hands a row downstream only on the edge where the subscription has ended", body=t["handlers"]["N"])
+            break
+    return r
+
+
+def _rejoins(b, good, bad, pop_sites):
+    return False
+
+
+def _all_nonempty_polarity(P, E, b, discr, depth=0):
+    """True if the boolean operand means `every queue has an item`, False for its negation, None if unrelated"""
+    if depth > 5 or discr.get("k") not in ("copy", "move"):
+        return None
+    out = None
+    for t in b.operand_prov(discr):
+        if t[0] == "val":
+            rv = b.blocks[t[1][0]]["stmts"][t[1][1]]["rv"]
+            if rv.get("k") == "binop" and rv.get("op") in ("Eq", "Ne"):
+                srcs = []
+                for o in (rv["a"], rv["b"]):
+                    names = set()
+                    for x in b.operand_prov(o):
+                        if x[0] == "ret":
+                            k = b.call_at(x[1])
+                            if k is not None:
+                                names.add(k.path.split("::")[-1])
+                    srcs.append(names)
+                if any("count" in s_ for s_ in srcs) and any("len" in s_ for s_ in srcs):
+                    out = (rv["op"] == "Eq")
+            elif rv.get("k") == "unop" and rv.get("op") == "Not":
+                inner = _all_nonempty_polarity(P, E, b, rv.get("a"), depth + 1)
+                out = None if inner is None else (not inner)
+        elif t[0] == "ret" and not t[2]:
+            k = b.call_at(t[1])
+            if k is not None and k.path in ("std::iter::Iterator::any", "std::iter::Iterator::all"):
+                empt = False
+                for tg in E.inline_targets(k):
+                    to = P.orig.get(tg.id, tg)
+                    names = [c.path.split("::")[-1] for c in to.calls]
+                    if "is_empty" in names:
+                        empt = True
+                    elif "len" in names:
+                        empt = None
+                if empt is True:
+                    # any(is_empty) -> a queue is empty ; all(is_empty) is not a usable test
+                    out = False if k.path.endswith("::any") else None
+    return out
